@@ -26,8 +26,13 @@ class BooleanOperationsMixin:
                 intersections.append(Intersection(seg, loops[0], seg, loops[1]))
         for i1 in range(0, len(segs)):
             for i2 in range(i1 + 1, len(segs)):
+                # Neighbouring segments meet at their shared node; that is
+                # not a self-intersection
+                neighbours = i2 == i1 + 1 or (
+                    self.closed and i1 == 0 and i2 == len(segs) - 1
+                )
                 for i in segs[i1].intersections(segs[i2]):
-                    if i.t1 > 1e-2 and i.t1 < 1 - 1e-2:
+                    if not neighbours or (i.t1 > 1e-2 and i.t1 < 1 - 1e-2):
                         intersections.append(i)
         return intersections
 
